@@ -251,7 +251,8 @@ def getTableComplete (fams : List Family) (rows : List GetRow) : Bool :=
 
 /-- One recorded constructor call. `given` = parameters passed as plain values, `fixed` = passed
 as `f_<p>`; `order`: 0 = `Dist(**values, **fixed)`, 1 = `Dist(**fixed, **values)`,
-2 = `Dist(*values, **fixed)` (then `given` is a prefix). `params` = the values of
+2 = `Dist(*values, **fixed)` (then `given` is a prefix), 3 = `Dist(**values, **fixed, f_<q>=None for every free q)`
+(a free parameter explicitly declared not fixed). `params` = the values of
 `.parameters` afterwards, `fattrs` = the `f_<p>` attributes (`none` = Python `None`). -/
 structure CtorRow where
   fam : Nat
@@ -281,7 +282,7 @@ def ctorTableComplete (fams : List Family) (rows : List CtorRow) : Bool :=
     let subs := subsetsBelow f.params.length
     let full := List.range f.params.length
     subs.all fun F =>
-      ([0, 1, 2].all fun o =>
+      ([0, 1, 2, 3].all fun o =>
         rs.any fun r => r.fixed == F && r.given == full && r.order == o) &&
       (rs.any fun r => r.fixed == F && r.given == [] && r.order == 0)
 
@@ -518,6 +519,12 @@ def stdGengammaPpf (T : Tr α) (PInv : α → α → α) (a c q : α) : α := T.
 def stdVonMisesPdf (T : Tr α) (i0k : α) (kappa z : α) : α :=
   T.exp (kappa * T.cos z) / (2 * T.pi * i0k)
 
+/-- `gumbel_r` (no shape parameter): `F(z) = exp(-exp(-z))` -/
+def stdGumbelCdf (T : Tr α) (z : α) : α := T.exp (-(T.exp (-z)))
+/-- `gumbel_r.pdf(z) = exp(-(z + exp(-z)))` -/
+def stdGumbelPdf (T : Tr α) (z : α) : α := T.exp (-(z + T.exp (-z)))
+def stdGumbelPpf (T : Tr α) (q : α) : α := -(T.log (-(T.log q)))
+
 /-! documented formulas (docstrings of virocon/distributions.py) -/
 
 /-- Weibull (3p): `F(x) = 1 - exp(-((x-γ)/α)^β)` for `x > γ` -/
@@ -583,6 +590,15 @@ def vonMisesPdf (T : Tr α) (i0k : α) (kappa mu x : α) : α :=
 /-- `F(x) = V_κ(x - μ)`, `V` the standard von Mises cdf (0 at `-π`, 1 at `π`) as a leaf -/
 def vonMisesCdf (V : α → α) (mu x : α) : α := V (x - mu)
 def vonMisesIcdf (VInv : α → α) (mu p : α) : α := mu + VInv p
+
+/-- Gumbel (largest extreme value, type I), the documented law of a `ScipyDistribution` subclass of
+`scipy.stats.gumbel_r` (parameters `loc`, `scale` only): `F(x) = exp(-exp(-(x-loc)/scale))`, on the whole line -/
+def gumbelCdf (T : Tr α) (loc scale x : α) : α := T.exp (-(T.exp (-((x - loc) / scale))))
+/-- `f(x) = 1/scale · exp(-(z + exp(-z)))`, `z = (x-loc)/scale` -/
+def gumbelPdf (T : Tr α) (loc scale x : α) : α :=
+  1 / scale * T.exp (-((x - loc) / scale + T.exp (-((x - loc) / scale))))
+/-- `F⁻¹(p) = loc - scale · log(-log p)` -/
+def gumbelIcdf (T : Tr α) (loc scale p : α) : α := loc - scale * T.log (-(T.log p))
 
 end formulas
 
